@@ -88,19 +88,20 @@ class Optimizer(Identifiable, Runnable):
             n_iter = state["n_iter"]
             print(f"{n_iter:>4} {loss:.5f} evaluations: {func_evals}")
 
+            # the checkpoint records the next iteration to run
+            self._epoch += 1
+
             if (
                 self.checkpoint is not None
-                and self._epoch % self.checkpoint_frequency == 0
+                and (self._epoch - 1) % self.checkpoint_frequency == 0
             ):
                 if self.checkpoint_all:
                     checkpoint_file = self.checkpoint.replace(
-                        ".json", f"-{self._epoch}.json"
+                        ".json", f"-{self._epoch - 1}.json"
                     )
                     self.save_full_state(checkpoint_file, overwrite=True)
                 else:
                     self.save_full_state(self.checkpoint)
-
-            self._epoch += 1
 
     def _run(self) -> None:
         for logger in self.loggers:
@@ -168,19 +169,20 @@ class Optimizer(Identifiable, Runnable):
                 for p in self.parameters:
                     p.fire_parameter_changed()
 
+            # the checkpoint records the next iteration to run
+            self._epoch += 1
+
             if (
                 self.checkpoint is not None
-                and self._epoch % self.checkpoint_frequency == 0
+                and (self._epoch - 1) % self.checkpoint_frequency == 0
             ):
                 if self.checkpoint_all:
                     checkpoint_file = self.checkpoint.replace(
-                        ".json", f"-{self._epoch}.json"
+                        ".json", f"-{self._epoch - 1}.json"
                     )
                     self.save_full_state(checkpoint_file, overwrite=True)
                 else:
                     self.save_full_state(self.checkpoint)
-
-            self._epoch += 1
 
         for logger in self.loggers:
             logger.close()
